@@ -39,7 +39,14 @@ func probeOne(src string) {
 		fmt.Printf("COMPILE ERROR: %v\n", err)
 		return
 	}
-	rt := wazero.NewRuntimeWithConfig(ctx, wazero.NewRuntimeConfigCompiler())
+	if os.Getenv("C19_DUMP") != "" {
+		fmt.Printf("WASM: %x\n", prog.WASM)
+	}
+	cfg := wazero.NewRuntimeConfigCompiler()
+	if os.Getenv("C19_INTERP") != "" {
+		cfg = wazero.NewRuntimeConfigInterpreter()
+	}
+	rt := wazero.NewRuntimeWithConfig(ctx, cfg)
 	defer rt.Close(ctx)
 	stringsState := stlstrings.NewProgramState()
 	seriesState := series.NewProgramState()
